@@ -4,6 +4,7 @@ package main
 // obtained by cutting loops at invariants; emits the VC stream.
 
 import (
+	"path/filepath"
 	"bytes"
 	"fmt"
 	"go/ast"
@@ -225,9 +226,25 @@ func (x *Exec) runBlocks(blocks []*ssa.BasicBlock, within *loopInfo) {
 			// phis
 			x.bindPhis(b, ins, nil)
 		}
+		if blockCovers && x.depth == 0 && x.discovery == 0 && within == nil && len(b.Instrs) > 0 {
+			pos := ""
+			for _, in := range b.Instrs {
+				if in.Pos().IsValid() {
+					p := x.g.fset.Position(in.Pos())
+					pos = fmt.Sprintf("%s:%d", filepath.Base(p.Filename), p.Line)
+					break
+				}
+			}
+			x.vc.oblige(&Obl{Name: fmt.Sprintf("%s/cover/block_%d_%s", x.prefix, b.Index, pos), Kind: "cover", Props: x.props, Reach: st.reach, Goal: "false", Cover: true, PreReach: "block", PreNLines: -1,
+				Src: "basic block reachable (" + b.Comment + ")"})
+		}
 		x.execBlock(b, st, within)
 	}
 }
+
+// blockCovers: emit a reachability cover per basic block (audit mode / thorough tier). An unreachable block is
+// reported as DEAD-BLOCK (information, not an error: code may legitimately be dead under the contract).
+var blockCovers bool
 
 func (x *Exec) bindPhis(b *ssa.BasicBlock, ins []edgeIn, only func(e edgeIn) bool) {
 	for _, in := range b.Instrs {
@@ -723,39 +740,40 @@ func (x *Exec) bind(v ssa.Value, term string) {
 	x.vals[v] = x.vc.name(v.Name(), x.vc.sortOf(v.Type()), term)
 }
 
-// assumeType adds the type invariant of a freshly introduced value.
+// assumeType adds the type invariant of a value. Guarded by the path condition: the value may be a term determined by
+// the state (a load), and an unguarded fact about it would silently constrain paths that never get here.
 func (x *Exec) assumeType(st *State, t string, typ types.Type) {
 	vc := x.vc
 	switch u := typ.Underlying().(type) {
 	case *types.Basic:
 		if lo, hi, ok := intRange(typ); ok {
-			vc.assert(and(app("<=", lo, t), app("<=", t, hi)))
+			vc.assert(implies(st.reach, and(app("<=", lo, t), app("<=", t, hi))))
 		}
 	case *types.Pointer, *types.Map, *types.Chan:
-		vc.assert(app("<", t, vc.getNext(st)))
+		vc.assert(implies(st.reach, app("<", t, vc.getNext(st))))
 		if pt, ok := u.(*types.Pointer); ok {
 			if _, isStruct := pt.Elem().Underlying().(*types.Struct); isStruct {
 				if x.g.trackedStruct(pt.Elem()) {
 					vc.regComp("RType", "(Array Int Int)")
-					vc.assert(implies(app(">", t, "0"), eq(sel(vc.get(st, "RType"), t), vc.structTID(pt.Elem()))))
+					vc.assert(implies(st.reach, implies(app(">", t, "0"), eq(sel(vc.get(st, "RType"), t), vc.structTID(pt.Elem())))))
 				}
 				if inModule(namedPkg(pt.Elem())) && !x.g.embeddedByValue(pt.Elem()) {
-					vc.assert(app(">=", t, "0")) // never a sub-object: nil or a whole allocated object
+					vc.assert(implies(st.reach, app(">=", t, "0"))) // never a sub-object: nil or a whole allocated object
 				}
 			}
 		}
 		if _, isMap := u.(*types.Map); isMap {
-			vc.assert(app(">=", t, "0"))
+			vc.assert(implies(st.reach, app(">=", t, "0")))
 		}
 		if _, isCh := u.(*types.Chan); isCh {
-			vc.assert(app(">=", t, "0"))
+			vc.assert(implies(st.reach, app(">=", t, "0")))
 		}
 	case *types.Slice:
-		vc.assert(and(app("<=", "0", app("s_off", t)), app("<=", "0", app("s_len", t)), app("<=", app("s_len", t), app("s_cap", t)),
+		vc.assert(implies(st.reach, and(app("<=", "0", app("s_off", t)), app("<=", "0", app("s_len", t)), app("<=", app("s_len", t), app("s_cap", t)),
 			app("<=", "0", app("s_arr", t)), app("<", app("s_arr", t), vc.getNext(st)),
-			implies(eq(app("s_arr", t), "0"), eq(app("s_cap", t), "0"))))
+			implies(eq(app("s_arr", t), "0"), eq(app("s_cap", t), "0")))))
 	case *types.Interface:
-		vc.assert(and(app(">=", app("a_typ", t), "0"), implies(eq(app("a_typ", t), "0"), eq(app("a_val", t), "0")), app("<", app("a_val", t), vc.getNext(st))))
+		vc.assert(implies(st.reach, and(app(">=", app("a_typ", t), "0"), implies(eq(app("a_typ", t), "0"), eq(app("a_val", t), "0")), app("<", app("a_val", t), vc.getNext(st)))))
 	case *types.Struct:
 		for i := 0; i < u.NumFields(); i++ {
 			ft := u.Field(i).Type()
@@ -1062,7 +1080,7 @@ func (x *Exec) closureAt(st *State, nx string) {
 		default:
 			tgt = "(root " + tgt + ")"
 		}
-		vc.assert(fmt.Sprintf("(forall ((x Int)) (! (=> (and (= (select %s x) %s) %s) (< %s %s)) :pattern ((select %s x))))", rt, fm.tid, guard, tgt, nx, h))
+		vc.assert(implies(st.reach, fmt.Sprintf("(forall ((x Int)) (! (=> (and (= (select %s x) %s) %s) (< %s %s)) :pattern ((select %s x))))", rt, fm.tid, guard, tgt, nx, h)))
 	}
 }
 
@@ -1584,7 +1602,7 @@ func (x *Exec) sliceInstr(st *State, t *ssa.Slice) {
 		x.implicit(st, t, "slice", and(app("<=", "0", lo), app("<=", lo, hi), app("<=", hi, app("str_len", xv))), "slice bounds out of range")
 		vc.declFun("str_sub", []string{sStr, sInt, sInt}, sStr)
 		c := vc.name(t.Name(), sStr, app("str_sub", xv, lo, hi))
-		vc.assert(eq(app("str_len", c), app("-", hi, lo)))
+		vc.assert(implies(st.reach, eq(app("str_len", c), app("-", hi, lo))))
 		x.vals[t] = c
 	}
 }
